@@ -387,3 +387,10 @@ impl SecondaryStorage {
         }
     }
 }
+
+impl SecondaryStorage {
+    /// The bookkeeping of the version manager (epochs, pins, pending deletions, row-set pool).
+    pub fn verif_version_state(&self) -> super::version_manager::VerifVersionState {
+        self.version.verif_state()
+    }
+}
